@@ -23,6 +23,9 @@ FIXED = [
  ("C04", "c04:indirect:parse-error (endobj)", "separate an object's value from the endobj keyword", "save wrote 7endobj / nullendobj"),
  ("C04", "c04:*:parse-error (integer overflow)", "integer tokens beyond the i32 range are read as reals", "Number(-2.1e26) written as -210026940000000000000000000 failed with ParseIntError"),
  ("C04", "c04:*:value-differs (real >= 2^24)", "write integral reals of 2^24 and above with a fraction part", "Number(2147483648.0) written as 2147483600 and read back as Integer(2147483600)"),
+ ("C02", "c02:older-or-wrong-value (newest entry compressed)", "an older cross-reference entry must not replace a newer compressed one", "newest section stores obj n in an object stream, older section has it direct: resolve(n) returned the old value"),
+ ("C11", "c11:stream-error:ref-to-compressed-int", "the expected-type flags of a resolve do not apply", "/Length n 0 R with n stored in an object stream: PrimitiveNotAllowed"),
+ ("C05", "c05:ASCIIHexDecode:hex-odd-final-digit", "ASCIIHexDecode with an odd number of digits", "'3>' decoded to nothing instead of 0x30 (found by C11 through a filtered stream)"),
 ]
 OPEN = [
 ]
